@@ -122,12 +122,30 @@ func runAllEntryPoints(input string, strict bool) (viol string, outcome string) 
 		}
 		fmt.Fprintf(&sb, "%s:n=%d;", name, len(msgs))
 	}
-	try("Parse", func() ([]*hsms.DataMessage, error, bool) {
-		if strict {
-			m, err := sml.ParseStrict(input)
-			return m, err, false
+	describe := func(ms []*hsms.DataMessage, err error) string {
+		var b strings.Builder
+		fmt.Fprintf(&b, "err=%v n=%d", err, len(ms))
+		for _, m := range ms {
+			if m != nil {
+				fmt.Fprintf(&b, " %x", m.ToBytes())
+			}
 		}
-		m, err := sml.Parse(input)
+		return b.String()
+	}
+	try("Parse", func() ([]*hsms.DataMessage, error, bool) {
+		// the package-level shortcuts are "a parser of that mode": whatever the process parsed before
+		// (in either mode, successfully or not), they must agree with a fresh Parser on this input
+		var m []*hsms.DataMessage
+		var err error
+		if strict {
+			m, err = sml.ParseStrict(input)
+		} else {
+			m, err = sml.Parse(input)
+		}
+		fm, ferr := sml.NewParser(sml.WithParserStrictMode(strict)).Parse(input)
+		if a, b := describe(m, err), describe(fm, ferr); a != b {
+			viol = fmt.Sprintf("the package-level parse shortcut (strict=%v) and a fresh Parser of the same mode disagree on this input:\n shortcut: %.300s\n fresh:    %.300s", strict, a, b)
+		}
 		return m, err, false
 	})
 	try("Parser.Parse", func() ([]*hsms.DataMessage, error, bool) {
@@ -331,6 +349,14 @@ func resourceShapes(thorough bool) []shape {
 		add(fmt.Sprintf("nest-closed-%d", n), func() string { return "S1F1\n" + repeat("<L", n) + repeat(">", n) + "\n." })
 		add(fmt.Sprintf("nest-hinted-%d", n), func() string { return "S1F1\n" + repeat("<L[1]\n", n) + "<A \"x\">" + repeat(">", n) + "\n." })
 	}
+	// scalar siblings BEFORE the deep nest: whatever bounds the nesting must count lists only
+	for _, n := range []int{10001, 1000000, 4000000} {
+		n := n
+		add(fmt.Sprintf("nest-after-scalars-open-%d", n), func() string { return "S1F1\n<L\n" + repeat("<B 0x01>\n", 60) + repeat("<L", n) })
+		add(fmt.Sprintf("nest-after-scalars-closed-%d", n), func() string {
+			return "S1F1\n<L\n" + repeat("<B 0x01>\n", 60) + repeat("<L", n) + repeat(">", n) + "\n>\n."
+		})
+	}
 	big := 20000
 	if thorough {
 		big = 100000
@@ -447,7 +473,7 @@ func runChild(dir, name, input string) (ok bool, detail string) {
 
 func TestC14Resources(t *testing.T) {
 	defer ev.Flush()
-	ev.Rule("resource shapes (parametric families): list nesting 1e3..4e6 deep (open, closed, hinted), 2e4 header-only / small messages, a 1e5-digit numeric token, a 4 MiB quoted run, 1e5 unterminated quotes, 1 Mi backslashes, 4 MiB unterminated comment, 2e5 comments, 3e5 list children, 1e6 values, size hints 2^24..2^31-1 and 2^31, 2^32-1, 2^32, 2^63-1, 2^63, 2^64-1, 2^64 in every form on every item type, nested and repeated. Each input is parsed by every entry point in strict and non-strict mode in a CHILD PROCESS (this test binary re-executed) under ulimit -v 4 GiB, Go's default 1 GB stack cap and a budget of 240 s of CPU time (ulimit -t; wall-clock time is not an oracle); death by fatal error, signal or CPU-limit is the violation. Non-trivial: every shape (all have size parameter >= 1000 or a hint >= 2^24); distinct by shape.")
+	ev.Rule("resource shapes (parametric families): list nesting 1e3..4e6 deep (open, closed, hinted, and preceded by 60 scalar siblings), 2e4 header-only / small messages, a 1e5-digit numeric token, a 4 MiB quoted run, 1e5 unterminated quotes, 1 Mi backslashes, 4 MiB unterminated comment, 2e5 comments, 3e5 list children, 1e6 values, size hints 2^24..2^31-1 and 2^31, 2^32-1, 2^32, 2^63-1, 2^63, 2^64-1, 2^64 in every form on every item type, nested and repeated. Each input is parsed by every entry point in strict and non-strict mode in a CHILD PROCESS (this test binary re-executed) under ulimit -v 4 GiB, Go's default 1 GB stack cap and a budget of 240 s of CPU time (ulimit -t; wall-clock time is not an oracle); death by fatal error, signal or CPU-limit is the violation. Non-trivial: every shape (all have size parameter >= 1000 or a hint >= 2^24); distinct by shape.")
 	dir := os.Getenv("VERIF_SCRATCH")
 	if dir == "" {
 		dir = t.TempDir()
